@@ -48,9 +48,9 @@ class RemoveEnclosingMiddleware(BlockMiddleware):
     @staticmethod
     def _strip_enclosing(value: str) -> Tuple[str, Union[str, None]]:
         value = value.strip()
-        if value.startswith("{") and value.endswith("}"):
+        if len(value) >= 2 and value.startswith("{") and value.endswith("}"):
             return value[1:-1], "{"
-        if value.startswith('"') and value.endswith('"'):
+        if len(value) >= 2 and value.startswith('"') and value.endswith('"'):
             return value[1:-1], '"'
         return value, "no-enclosing"
 
